@@ -19,7 +19,10 @@ def rand_hw(n_keys=None):
         key = mp if rng.random() < 0.5 else f"k{i}"
         if key in st:
             key = f"k{i}_{mp}"
-        st[key] = Storage(mp, float(rng.randint(0, 50)), paths={f"{mp}/p{i}"} if rng.random() < 0.5 else None)
+        # sizes are dyadic rationals (exact in binary floating point, sums and differences too), including the
+        # fractional values the scheduler produces with size / 2**20
+        size = float(rng.randint(0, 50)) if rng.random() < 0.5 else rng.randint(0, 3200) / 32.0 + rng.choice([0.0, 0.0009765625, 2.0 ** -20])
+        st[key] = Storage(mp, size, paths={f"{mp}/p{i}"} if rng.random() < 0.5 else None)
     return Hardware(float(rng.randint(0, 16)), float(rng.randint(0, 64)), st)
 
 
